@@ -110,6 +110,10 @@ def search_programs(count, seed):
         except Exception:
             continue    # the property quantifies over modules that import successfully
         done += 1
+        from replay.util import count as _count, sample
+        _count(evaluations=1, distinct=1)
+        if done == 1:
+            sample({"module_body": src[len(HEAD):][:600], "checked_for": "no exception, no internal_error, well-formed diagnostics"})
         nlines = src.count("\n") + 1
         try:
             res = check_code(src)
@@ -171,6 +175,8 @@ def search_values():
                 fn()
             except Exception as e:
                 return f"{label} of {v!r} raised {type(e).__name__}: {e}"
+    from replay.util import count
+    count(evaluations=len(vs) * len(vs) * 6, distinct=len(vs) * len(vs))
     for a, b in itertools.product(vs, repeat=2):
         for label, fn in (("can_assign", lambda: a.can_assign(b, ctx)), ("is_assignable", lambda: a.is_assignable(b, ctx)), ("unite_values", lambda: unite_values(a, b)),
                           ("can_overlap", lambda: a.can_overlap(b, ctx, __import__('pyanalyze.value', fromlist=['OverlapMode']).OverlapMode.EQ)), ("==", lambda: a == b), ("hash", lambda: hash(unite_values(a, b)) if _hashable(a) and _hashable(b) else 0)):
